@@ -120,7 +120,8 @@ impl FromUniformBytes for FP {
 
 thread_local! {
     /// every result of a precomputed ("mixed") multiscalar multiplication on this thread, while logging is on
-    static MSM_LOG: RefCell<Option<Vec<FP>>> = const { RefCell::new(None) };
+    /// (precomputed?, result) of every multiscalar multiplication while the log is armed
+    static MSM_LOG: RefCell<Option<Vec<(bool, FP)>>> = const { RefCell::new(None) };
     /// coordinate-operation counter (deterministic work proxy)
     static OPS: Cell<u64> = const { Cell::new(0) };
     /// content-addressed table of compressed points, owned by the running case
@@ -136,8 +137,40 @@ pub fn reset_ops() {
 pub fn msm_log_start() {
     MSM_LOG.with(|l| *l.borrow_mut() = Some(Vec::new()));
 }
+/// Stop logging and return the value of every FINAL CHECK made while the log was armed, in order: a verifier either asks whether
+/// one precomputed (mixed) multiscalar multiplication is the identity - then that result is the value - or compares a precomputed
+/// one with a plain one computed next to it - then the value is their difference. Either way the check passes iff the value is
+/// zero, and the value is the verifier's relation up to a nonzero factor.
 pub fn msm_log_stop() -> Vec<FP> {
-    MSM_LOG.with(|l| l.borrow_mut().take().unwrap_or_default())
+    let raw = MSM_LOG.with(|l| l.borrow_mut().take().unwrap_or_default());
+    let mut out = vec![];
+    let mut i = 0;
+    while i < raw.len() {
+        let (pre, v) = &raw[i];
+        match raw.get(i + 1) {
+            Some((pre2, v2)) if pre != pre2 => {
+                let (x, y) = if *pre { (v, v2) } else { (v2, v) };
+                let mut d = x.clone();
+                d.add_scaled(&-Scalar::ONE, y);
+                out.push(d);
+                i += 2;
+            },
+            _ => {
+                if *pre {
+                    out.push(v.clone());
+                }
+                i += 1;
+            },
+        }
+    }
+    out
+}
+fn log_msm(pre: bool, r: &FP) {
+    MSM_LOG.with(|l| {
+        if let Some(v) = l.borrow_mut().as_mut() {
+            v.push((pre, r.clone()))
+        }
+    });
 }
 /// Forget every compressed point registered by this thread (call at the start of each case).
 pub fn reset_registry() {
@@ -172,7 +205,9 @@ impl VartimeMultiscalarMul for FP {
         I::Item: Borrow<Scalar>,
         J: IntoIterator<Item = Option<FP>>,
     {
-        msm(scalars, points)
+        let r = msm(scalars, points)?;
+        log_msm(false, &r);
+        Some(r)
     }
 }
 impl MultiscalarMul for FP {
@@ -185,7 +220,9 @@ impl MultiscalarMul for FP {
         J: IntoIterator,
         J::Item: Borrow<FP>,
     {
-        msm(scalars, points.into_iter().map(|p| Some(p.borrow().clone()))).unwrap()
+        let r = msm(scalars, points.into_iter().map(|p| Some(p.borrow().clone()))).unwrap();
+        log_msm(false, &r);
+        r
     }
 }
 
@@ -216,11 +253,7 @@ impl VartimePrecomputedMultiscalarMul for FPre {
         for (s, p) in ss.iter().zip(self.0.iter()) {
             r.add_scaled(s, p);
         }
-        MSM_LOG.with(|l| {
-            if let Some(v) = l.borrow_mut().as_mut() {
-                v.push(r.clone())
-            }
-        });
+        log_msm(true, &r);
         Some(r)
     }
 }
